@@ -51,7 +51,7 @@ META = {
  "C10": dict(
   text="Round-trip random testing through the real Save/write/Load path for full and partial stores (content built through real operations: arbitrary valid UTF-8 keys, binary values incl. empty and large, delete prefixes, up to thousands of entries) and of the file naming: generated sets of full/partial snapshots with ranges up to 10 digits are saved and must be listed by ListSnapshotFiles(below) with the right range and kind for every boundary value of below, with nothing unsaved returned.",
   design_ref="DESIGN.md section 3, C10",
-  note="Keys are valid UTF-8 (a key that is not cannot pass the operation log, whose protobuf string fields reject it); raw binary keys are exercised at the marshaller level in C18. Local uncompressed dstore. Snapshots are loaded into a fresh store, back into the store object that saved them, and twice into one object.",
+  note="Keys are valid UTF-8 (a key that is not cannot pass the operation log, whose protobuf string fields reject it); raw binary keys are exercised at the marshaller level in C18. Local uncompressed dstore. Snapshots are loaded into a fresh store, back into the store object that saved them, and twice into one object; a block is applied to the store between Save and the writer's Write, and the file must hold the content at the time of Save.",
   technique="rapid random generation, round-trip + completeness/soundness of listing"),
  "C11": dict(
   text="Stateful random testing: histories of blocks, undos, redos, finals, merges of saved+reloaded partials and save/load cycles with the total size limit lowered through a verif hook; after every step SizeBytes()==sum(len key+len value); Flush rejects as too big iff the content exceeds the limit right after some delta.",
@@ -69,7 +69,7 @@ META = {
   note="End to end (TestC15Index): programs with several filtered modules sharing one index module are run in production mode with the index being built by the jobs, with only the index files present, and with a subset of them, each compared with the sequential dev-mode execution, in which every filtered module must have run exactly on the blocks whose keys satisfy its filter. Index files are only read by tier2, so the index-present scenarios are back-filled production ranges. One case in eight injects transient write failures of the object store (retried by the code) while the files are built.",
   technique="rapid random generation, differential (bitmap vs per-block evaluator) + native go fuzzing"),
  "C16": dict(
-  text="Fault-injection random testing end to end: the real work.RemoteWorker talks to the exported Tier2Service.ProcessRange through a fake gRPC client/stream pair; generated fault plans (1..3 transient faults by call number: error before the call, 'service currently overloaded', stream dropped mid-way with the server context cancelled, stream dropped after the job wrote its files) must leave the outputs identical to the sequential execution; a generated deterministic module failure at block k must end the request with an error that tier1 maps to invalid_argument, with only correct blocks < k delivered, nothing after the error and no endless retry.",
+  text="Fault-injection random testing end to end: the real work.RemoteWorker talks to the exported Tier2Service.ProcessRange through a fake gRPC client/stream pair; generated fault plans (1..3 transient faults by call number: error before the call, 'service currently overloaded', stream dropped mid-way with the server context cancelled (also with grpc-go's 'error reading from server: EOF' text and as Canceled), failure while the stream is set up, stream dropped after the job wrote its files) must leave the outputs identical to the sequential execution; a generated deterministic module failure at block k must end the request with an error that tier1 maps to invalid_argument, with only correct blocks < k delivered, nothing after the error and no endless retry.",
   design_ref="DESIGN.md section 3, C16",
   note="Every retry sleeps >= 1 s in derr's real back-off, so cases run in concurrent batches of 12 and counts are modest. Only faults an in-process fake stream can model (no half-open connections or deadlines).",
   technique="rapid random generation of fault plans (fault injection), differential against the sequential reference"),
